@@ -488,7 +488,10 @@ def configs(tier):
         if h >= 2 and w >= 2 and h <= 8 and w <= 8:
             for pipe in SEMSEG_PIPES:
                 for s in (2, 4):
-                    for via in (("direct", "wrapper", "wrapper_rev") if tier == "thorough" or pipe in ("full", "crop") else ("direct",)):
+                    vias = ("direct", "wrapper", "wrapper_rev") if tier == "thorough" or pipe in ("full", "crop") else ("direct",)
+                    if pipe == "full_old":
+                        vias = ("direct",)  # KDSemsegRandomResizeOld is not a registered pair transform of the wrapper
+                    for via in vias:
                         out.append(("semseg", (h, w, pipe, s, via), 2 if pipe.startswith("full") or pipe == "crop_ratio" else None))
     return out
 
